@@ -99,3 +99,7 @@ Qed.
 
 Lemma dsize_app d e : dsize (d ++ e) = (dsize d + dsize e)%nat.
 Proof. induction d as [|[k x] t IH]; cbn [dsize app]; [reflexivity|]. rewrite IH. lia. Qed.
+
+Lemma safe_nonempty_total {A B} (l : list A) (r : res B) :
+  total r -> total (match l with [] => Err | _ :: _ => r end).
+Proof. destruct l; cbn; auto. Qed.
